@@ -505,3 +505,27 @@ T("C05", DT, _CP, "    def __reduce__(self):\n        return (self.__class__, (s
 M("C17", "C17-META", SM, '            poly_trend = meta.pop("poly_trend", poly_trend)\n', '            _pt = meta.pop("poly_trend", None)\n            poly_trend = _pt if poly_trend is None else poly_trend\n', "table's poly_trend ignored because the argument was already defaulted")
 M("C17", "C17-META", SM, '            n_offsets = meta.pop("n_offsets", n_offsets)\n', '            meta.pop("n_offsets", None)\n', "table's n_offsets dropped")
 T("C17", SM, '            poly_trend = meta.pop("poly_trend", poly_trend)\n', '            table_poly_trend = meta.pop("poly_trend", poly_trend)\n            poly_trend = table_poly_trend\n', "popped value through a temporary")
+
+# ---------------------------------------------------------------- round-4 clauses (mutant + behaviour-preserving twin each)
+_MAPIF = "    if randomize_prior_order:\n        full_samples_idx = idx[good_samples_idx]\n    else:\n        full_samples_idx = good_samples_idx\n"
+M("C06", "C06-SPACE", MP, _MAPIF, "    if randomize_prior_order is True:\n        full_samples_idx = idx[good_samples_idx]\n    else:\n        full_samples_idx = good_samples_idx\n",
+  "row map chosen on `is True`, evaluation order on truthiness")
+T("C06", MP, _MAPIF, "    full_samples_idx = good_samples_idx if not randomize_prior_order else idx[good_samples_idx]\n", "row map chosen by the same test, inverted conditional expression")
+T("C06", MP, '        idx = rng.choice(n_total_samples, size=n_prior_samples, replace=False)\n        ll_kw["samples_idx"] = idx\n',
+  '        ll_kw["samples_idx"] = idx = rng.choice(n_total_samples, size=n_prior_samples, replace=False)\n', "chained assignment of the row map")
+M("C06", "C06-ALL", LH, "    good_samples_idx = np.where(np.exp(lls - lls.max()) > uu)[0]\n    good_samples_idx = good_samples_idx[:max_posterior_samples]\n\n    # generate linear parameters\n    samples = make_full_samples_inmem(\n        joker_helper,\n        prior_samples_batch[good_samples_idx],",
+  "    good_samples_idx = np.where(np.exp(lls - lls.max()) > uu)[0]\n    good_samples_idx = good_samples_idx[:max_posterior_samples]\n    lls -= lls.max()\n\n    # generate linear parameters\n    samples = make_full_samples_inmem(\n        joker_helper,\n        prior_samples_batch[good_samples_idx],",
+  "evaluated likelihoods shifted in place before they are returned")
+M("C19", "C19-PURE", SA, "    ln_post = samples['ln_prior'] + samples['ln_likelihood']\n", "    ln_post = samples['ln_prior']\n    ln_post += samples['ln_likelihood']\n", "MAP_sample accumulates into the caller's ln_prior column")
+T("C19", SA, "    ln_post = samples['ln_prior'] + samples['ln_likelihood']\n", "    ln_post = samples['ln_prior'].copy()\n    ln_post = ln_post + samples['ln_likelihood']\n", "MAP_sample sums into a copy")
+M("C09", "C09-SUM", PR, "        if return_logprobs:\n            # raise NotImplementedError", "        raw_samples[\"omega\"] %= 2 * np.pi\n        if return_logprobs:\n            # raise NotImplementedError", "draws wrapped in place before the log-density")
+M("C04", "C04-EPOCH", DH, "    trend_M = get_trend_design_matrix(all_data, ids, poly_trend)\n", "    all_data.t_ref = data[list(data.keys())[0]].t_ref if hasattr(data, 'keys') else all_data.t_ref\n    trend_M = get_trend_design_matrix(all_data, ids, poly_trend)\n", "t_ref assigned outside the constructor")
+M("C15", "C15-GUESS", DT, "            if err_data is not None and err_data.unit is u.one:\n", "            if err_data is not None and rv_data.unit is not u.one:\n", "error column's fall-back unit decided on the velocity column")
+T("C15", DT, "        if rv_unit is not None:\n            if rv_data.unit is u.one:\n                rv_data = rv_data * rv_unit\n", "        if rv_unit is not None and rv_data.unit is u.one:\n            rv_data = rv_unit * rv_data\n        if rv_unit is not None:\n", "fall-back unit: merged guard, commuted product")
+M("C12", "C12-REFUSE", SH, "        # Now compare datatype of this object and on disk\n", "        output_group[name].attrs['n_appends'] = output_group[name].attrs.get('n_appends', 0) + 1\n        # Now compare datatype of this object and on disk\n", "dataset attribute written before the dtype check")
+M("C02", "C02-API", TJ, "        joker_helper = self._make_joker_helper(data)  # also validates data\n\n        if isinstance(prior_samples, int):\n            # If an integer, generate that many prior samples first\n",
+  "        joker_helper = self._make_joker_helper(data)  # also validates data\n        if max_posterior_samples is None:\n            max_posterior_samples = n_prior_samples\n\n        if isinstance(prior_samples, int):\n            # If an integer, generate that many prior samples first\n", "default of max_posterior_samples resolved in the public method")
+_ATT = "        sg = rng.bit_generator._seed_seq.spawn(len(tasks))\n        for i in range(len(tasks)):\n            tasks[i] = tuple(tasks[i]) + (Generator(PCG64(sg[i])),)\n"
+T("C16", MP, _ATT, "        sg = rng.spawn(len(tasks))\n        for i in range(len(tasks)):\n            tasks[i] = tuple(tasks[i]) + (sg[i],)\n", "Generator.spawn spelling, one child per task")
+T("C10", MP, _ATT, "        sg = rng.spawn(len(tasks))\n        for i in range(len(tasks)):\n            tasks[i] = tuple(tasks[i]) + (sg[i],)\n", "Generator.spawn spelling, one child per task")
+M("C16", "C16-ATTACH", MP, _ATT, "        tasks = [tuple(t) + (g,) for t, g in zip(tasks, rng.spawn(max(1, pool.size)))]\n", "tasks zipped with one child per worker: the rest is dropped")
